@@ -495,6 +495,15 @@ def run_shapes(cfgname):
             if not res.get("crashed") and r1 != "R1 attempts=32 aliasing_granted=0 [] refused_wrongly=0 [] clones_ok=2/2":
                 res["oracle_hits"].append({"property": "C11", "seq": "shapes", "line": 0, "op": "rt shapes", "class": "shapes-R1", "no_shrink": True,
                                            "what": f"a component whose Clone::clone re-enters its own world while World::clone / Archetype::clone is reading the columns: exclusive runtime borrows of columns of the archetype being cloned (borrow_slice_mut, component_mut, ecs_find_borrow! / ecs_iter_borrow! with &mut) must panic instead of being granted, shared ones and accesses to another archetype must succeed, and the clones complete (harness/rt/src/shapes.rs reent); observed `{r1}`"})
+            k1 = next((x for x in got if x.startswith("K1 ")), None)
+            if not res.get("crashed") and k1 != "K1 clone_calls_world=3 clone_calls_archetype=2 clone_holds_clone_results=1 original_untouched=1 archetype_clone_ok=1":
+                for pr_ in ("C13", "C04", "C02"):
+                    res["oracle_hits"].append({"property": pr_, "seq": "shapes", "line": 0, "op": "rt shapes", "class": "shapes-K1", "no_shrink": True,
+                                               "what": f"a component WITHOUT drop glue whose Clone is not a bit copy (it counts its calls and marks the value it returns): World::clone / Archetype::clone must call Clone::clone exactly once per live value (3 and 2 here) and the clone must hold what Clone::clone returned, the original staying untouched (harness/rt/src/shapes.rs deepclone); observed `{k1}`"})
+            v1 = next((x for x in got if x.startswith("V1 ")), None)
+            if not res.get("crashed") and v1 != "V1 7:7/7/11 2:2/2/11 3:3/3/11 undeclared_accepted=[]":
+                res["oracle_hits"].append({"property": "C14", "seq": "shapes", "line": 0, "op": "rt shapes", "class": "shapes-V1", "no_shrink": True,
+                                           "what": f"a world whose explicit archetype ids are not in declaration order (7, 2, 3): SelectArchetype::try_from(id) and try_from(handle) must both succeed for every declared archetype and report its own id, SelectEntity / SelectEntityDirect must accept its handles, undeclared ids must be refused (harness/rt/src/shapes.rs idorder; per archetype `id:by_id/by_handle/select_entity select_direct`); observed `{v1}`"})
             d1 = next((x for x in got if x.startswith("D1 ")), None)
             if not res.get("crashed") and d1 != "D1 is_destroy=0011 default=Continue from_unit=Continue from_continue=Continue from_break=Break step_default=Continue step_from_unit=Continue":
                 res["oracle_hits"].append({"property": "C07", "seq": "shapes", "line": 0, "op": "rt shapes", "class": "shapes-D1", "no_shrink": True,
@@ -539,13 +548,14 @@ def run_smallworlds(cfgname):
             exp = [f"E1 created_world_eq_arch=1 destroyed_world_eq_arch=1 n_created={2 + cm} n_destroyed=1 hints_exact=1 after_one_next=1 first_is_a=1 c_made={cm}",
                    f"E2 after_clear created=0 destroyed=0 len={1 + cm}",
                    "E3 created=2 destroyed=1 hints_exact=1 order_ok=1",
-                   "E4 created=1 destroyed=0 hints_exact=1 only_left=1"]
+                   "E4 created=1 destroyed=0 hints_exact=1 only_left=1",
+                   ("E5 n_arch=256 created=3 destroyed=1 after_clear=0 hints_exact=1 finished_stays_finished=1" if CONFIGS[cfgname][0] != "release" else "E5 skipped (release build)")]
             for e in exp:
                 tag = e.split()[0]
                 g = next((x for x in got if x.startswith(tag + " ")), None)
                 if g != e and not res.get("crashed"):
                     res["oracle_hits"].append({"property": "C17", "seq": "smallworlds", "line": 0, "op": "rt smallworlds", "class": "smallworlds-" + tag, "no_shrink": True,
-                                               "what": f"event logs of a world with {'one archetype' if tag in ('E1', 'E2') else 'two archetypes (the first with an empty log)'}: expected `{e}`, observed `{g}`"})
+                                               "what": f"event logs of a world with {'one archetype' if tag in ('E1', 'E2') else '256 archetypes, the documented maximum (harness/rt/src/big256.rs: the world-level iterators must end with None and stay finished; debug builds check arithmetic overflow)' if tag == 'E5' else 'two archetypes (the first with an empty log)'}: expected `{e}`, observed `{g}`"})
         json.dump(res, open(jf, "w"))
         return res
 
@@ -1017,7 +1027,7 @@ def check_rt(prop, tier, seed):
     if prop in ("C10", "C17"):
         # the generation-overflow panic with event logs on (events without wrapping_version)
         streams.append(run_stream("dbg-e", "overflow", seed, t["nseq"], t["maxops"]))
-    if prop in ("C03", "C04", "C10", "C07", "C11"):
+    if prop in ("C02", "C03", "C04", "C10", "C07", "C11", "C13", "C14"):
         for c in QUICK_CONFIGS:
             streams.append(run_shapes(c))
     if prop == "C17":
@@ -1071,6 +1081,17 @@ def thorough_extras(prop, tier, seed, lean, streams):
 MEMSAFE_PROPS = ("C03", "C04", "C10", "C19")
 
 
+def memsafe_applies(prop, h):
+    """A harness process killed by a signal is a concrete failing history for the properties that
+    state memory safety, and for any property whose footprint contains the operation that was
+    running (the history cannot be executed at all there)."""
+    if prop in MEMSAFE_PROPS:
+        return True
+    spec = RT_PROPS.get(prop)
+    kind = (str(h.get("op", "")).split() or ["?"])[0]
+    return bool(spec) and (spec["ops"] is None or kind in spec["ops"])
+
+
 def decide(prop, tier, seed, lean, streams, concerns_fn, extra_cov=None, t0=None):
     t0 = t0 or START
     violations = []
@@ -1080,7 +1101,7 @@ def decide(prop, tier, seed, lean, streams, concerns_fn, extra_cov=None, t0=None
         for h in s.get("oracle_hits", []):
             if h["property"] == "MEMSAFE":
                 # memory safety is part of what these properties state
-                if prop not in MEMSAFE_PROPS:
+                if not memsafe_applies(prop, h):
                     continue
                 h = dict(h, property=prop)
             if h["property"] != prop and prop != "C19":
@@ -1161,7 +1182,7 @@ def decide(prop, tier, seed, lean, streams, concerns_fn, extra_cov=None, t0=None
                 for pr in ALL_PROFILES:
                     s2 = run_stream(c, pr, seed + 1, 120, 300)
                     for h in s2.get("oracle_hits", []):
-                        if h["property"] == "MEMSAFE" and prop in MEMSAFE_PROPS:
+                        if h["property"] == "MEMSAFE" and memsafe_applies(prop, h):
                             h = dict(h, property=prop)
                         if h["property"] == prop and not is_known(h, c):
                             found = (s2, h)
